@@ -88,6 +88,6 @@ func (l *qcStatemQcPdsLangCase) Execute(c *x509.Certificate) *lint.LintResult {
 			return &lint.LintResult{Status: lint.Warn, Details: wrnString}
 		}
 	} else {
-		return &lint.LintResult{Status: lint.Error, Details: errString}
+		return &lint.LintResult{Status: lint.Fatal, Details: errString}
 	}
 }
